@@ -69,6 +69,9 @@ def install(symconst=False, earth_exact=True):
     _set(T, 'RAD_TO_DEG', S.const(S._rdeg()))
     _set(T, 'DH_TO_RS', S.PI() / 180 / 3600)
     _set(T, 'DRH_TO_RRS', S.PI() / 180 / 60)
+    for k in ('IS', 'SIM'):
+        real_crs = _ORIG.get((m[k].__name__, 'check_random_state'), (None, getattr(m[k], 'check_random_state', None)))[1]
+        _set(m[k], 'check_random_state', (lambda r, _real=real_crs: r if hasattr(r, 'randn') and not isinstance(r, np.random.RandomState) else _real(r)))
     KF = m['KF']
     _set(KF, 'cholesky', symlinalg.cholesky)
     _set(KF, 'cho_solve', symlinalg.cho_solve)
@@ -489,6 +492,9 @@ class AReport:
         specs, obs = [], []
         for ob, r in bad:
             tr = self.refute(ob, r, ctx)
+            if tr is None and ob.expr is None and r['result'] == 'sat' and (ob.meta or {}).get('check'):
+                # a structural obligation (no residual to evaluate) failed: replay at a seeded point
+                tr = (sample_point(set(self.box) - {'deg'}, self.box, self.rng, self.consts), float('nan'))
             if tr is None:
                 if r['result'] == 'sat':
                     run.error('obligation "%s" is sat under the relaxation but no true-function counterexample was found - inconclusive' % ob.name)
